@@ -11,6 +11,7 @@ pub mod c05;
 pub mod c06;
 pub mod c12;
 pub mod c13;
+pub mod c14;
 pub mod c17;
 pub mod c18;
 
@@ -33,6 +34,7 @@ pub fn info(prop: &str) -> Option<PropInfo> {
         "C06" => Some(c06::INFO),
         "C12" => Some(c12::INFO),
         "C13" => Some(c13::INFO),
+        "C14" => Some(c14::INFO),
         "C17" => Some(c17::INFO),
         "C18" => Some(c18::INFO),
         _ => None,
@@ -49,10 +51,11 @@ pub fn run(prop: &str, cfg: &RunCfg, direct: Option<&serde_json::Value>) -> Outc
         "C06" => c06::run(cfg, direct),
         "C12" => c12::run(cfg, direct),
         "C13" => c13::run(cfg, direct),
+        "C14" => c14::run(cfg, direct),
         "C17" => c17::run(cfg, direct),
         "C18" => c18::run(cfg, direct),
         _ => panic!("unknown property {prop}"),
     }
 }
 
-pub const ALL: &[&str] = &["C01", "C02", "C03", "C04", "C05", "C06", "C12", "C13", "C17", "C18"];
+pub const ALL: &[&str] = &["C01", "C02", "C03", "C04", "C05", "C06", "C12", "C13", "C14", "C17", "C18"];
